@@ -6,10 +6,9 @@ import OpcuaModel.Model.CodecSplit
   or exceeds one of the two budgets (call depth `fuel`, allocation `env.limit`);
   it never panics and never diverges.
 
-  Main result `decode_safe`: with the two proposed repairs switched on
-  (`env.fixNegLen`, `env.fixDims`) every decoder of the model is safe — so the
-  panics and the non-termination of the unchanged decoder come from exactly these
-  two places.
+  Main result `decode_safe`: every decoder of the model is safe (since the repairs
+  of C02.variant-neg-len and C02.variant-dims-overflow; before them `Variant.Decode`
+  could panic in `reflect.MakeSlice` / `split` and loop forever in `split`).
 -/
 namespace Opcua.Codec
 open Opcua
@@ -347,8 +346,8 @@ theorem decDimList_spec (env : Env) (dl : Nat) (s s' : St) (r : Option (List Nat
       cases h
       exact ⟨ds, rfl, decDims_spec dl s1 _ ds h2⟩
 
-/-- `Variant.Decode` with both repairs is safe -/
-theorem safe_decVariant (env : Env) (h1 : env.fixNegLen = true) (h2 : env.fixDims = true)
+/-- `Variant.Decode` is safe: `split` only runs on a dimension list whose exact product is the number of elements -/
+theorem safe_decVariant (env : Env)
     {rec : Ty → Dec Val} (hr : ∀ t, SafeDec P (rec t)) : SafeDec P (decVariant env rec) := by
   unfold decVariant
   refine safe_bind (safe_readUInt 1) fun mask => ?_
@@ -356,7 +355,7 @@ theorem safe_decVariant (env : Env) (h1 : env.fixNegLen = true) (h2 : env.fixDim
   refine safe_bind (safe_readUInt 4) fun alen => ?_
   refine safe_ite safe_err ?_
   by_cases hneg : toInt32 alen < -1
-  · simp only [hneg, if_true, h1]
+  · simp only [hneg, if_true]
     exact safe_err
   · simp only [hneg, if_false]
     intro s
@@ -369,7 +368,7 @@ theorem safe_decVariant (env : Env) (h1 : env.fixNegLen = true) (h2 : env.fixDim
     · simp only [hdl, if_false]
       refine safe_bind' s2 (safe_optDec _ _ (safe_decDimList env dl) s2) ?_
       intro dims s3 hdims
-      by_cases hmm : dl > 0 ∧ dimsMismatch env (dims.getD []) alen = true
+      by_cases hmm : dl > 0 ∧ dimsMismatch (dims.getD []) alen = true
       · simp only [hmm, and_self, if_true]; exact safe_err s3
       · simp only [hmm, if_false]
         by_cases hd2 : dl < 2
@@ -378,9 +377,9 @@ theorem safe_decVariant (env : Env) (h1 : env.fixNegLen = true) (h2 : env.fixDim
           refine safe_bind' s3 ?_ (fun _ _ _ => trivial)
           -- the dimension list was read (dl ≥ 2 means the bit is set) and matches the length exactly
           have hpos : dl > 0 := by omega
-          have hnm : ¬ dimsMismatch env (dims.getD []) alen = true := fun hc => hmm ⟨hpos, hc⟩
+          have hnm : ¬ dimsMismatch (dims.getD []) alen = true := fun hc => hmm ⟨hpos, hc⟩
           unfold dimsMismatch at hnm
-          simp only [h2, if_true, decide_eq_true_eq, not_or, Decidable.not_not] at hnm
+          simp only [decide_eq_true_eq, not_or, Decidable.not_not] at hnm
           obtain ⟨hnn, hprod⟩ := hnm
           have hspec : ∃ ds, dims = some ds ∧ ds.length = dl ∧ ∀ d ∈ ds, 1 ≤ d := by
             unfold optDec at hdims
@@ -406,9 +405,9 @@ theorem safe_decVariant (env : Env) (h1 : env.fixNegLen = true) (h2 : env.fixDim
           rw [Nat.zero_add, hPL] at this
           exact this s3
 
-/-- **Safety of the repaired decoder.**  With both repairs every decoder of the model returns a value or an
-    error, or exceeds the depth / allocation budget: no panic, no divergence, for every type and every input. -/
-theorem decode_safe (env : Env) (h1 : env.fixNegLen = true) (h2 : env.fixDims = true) :
+/-- **Safety of the decoder.**  Every decoder of the model returns a value or an error, or exceeds the depth /
+    allocation budget: no panic, no divergence, for every environment, type and input. -/
+theorem decode_safe (env : Env) :
     ∀ (fuel : Nat) (t : Ty), SafeDec SafeF (decode env fuel t) := by
   intro fuel
   induction fuel with
@@ -432,92 +431,7 @@ theorem decode_safe (env : Env) (h1 : env.fixNegLen = true) (h2 : env.fixDims = 
     | locText => exact safe_bind safe_decLocText fun _ => safe_pure _
     | diag => exact safe_bind (safe_decDiag (n + 1)) fun _ => safe_pure _
     | dataValue => exact safe_decDataValue (ih .variant)
-    | variant => exact safe_decVariant env h1 h2 ih
-    | extObj => exact safe_decExtObj env ih
-
-/-! ### the unchanged decoder: which failures can occur at all -/
-
-/-- the failures the unchanged decoder can produce: the tolerated ones plus the four outcomes of the two defects -/
-def DecoderFail (f : Fail) : Prop :=
-  f = .err ∨ f = .depth ∨ f = .alloc ∨ f = .panicNegLen ∨ f = .panicSlice ∨ f = .panicIndex ∨ f = .diverge
-
-instance : Allowed DecoderFail := ⟨Or.inl rfl, Or.inr (Or.inl rfl), Or.inr (Or.inr (Or.inl rfl))⟩
-
-theorem any_splitLoop {f : Nat → Nat → Dec Val} (hf : ∀ a b, SafeDec DecoderFail (f a b)) (p : Nat) :
-    ∀ fuel i j, SafeDec DecoderFail (splitLoop f p fuel i j)
-  | 0, _, _ => safe_pure _
-  | k + 1, i, j => by
-    unfold splitLoop
-    exact safe_ite (safe_bind (hf _ _) fun _ => safe_bind (any_splitLoop hf p k _ _) fun _ => safe_pure _) (safe_pure _)
-
-theorem any_splitLeaf (vals : List Val) (n : Bool) (i j : Nat) : SafeDec DecoderFail (splitLeaf vals n i j) := by
-  unfold splitLeaf
-  exact safe_ite (fun _ => Or.inr (Or.inr (Or.inr (Or.inr (Or.inl rfl))))) (safe_pure _)
-
-theorem any_splitM (env : Env) (vals : List Val) (n : Bool) :
-    ∀ (ds : List Nat) (i j : Nat), SafeDec DecoderFail (splitM env vals n ds i j) := by
-  intro ds
-  induction ds with
-  | nil => intro i j; simp only [splitM]; exact any_splitLeaf vals n i j
-  | cons d ds ih =>
-    intro i j
-    cases ds with
-    | nil => simp only [splitM]; exact any_splitLeaf vals n i j
-    | cons d' ds' =>
-      have hdiv : SafeDec DecoderFail (Dec.fail .diverge : Dec Val) :=
-        fun _ => Or.inr (Or.inr (Or.inr (Or.inr (Or.inr (Or.inr rfl)))))
-      have hidx : ∀ {α : Type}, SafeDec DecoderFail (Dec.fail .panicIndex : Dec α) :=
-        fun _ => Or.inr (Or.inr (Or.inr (Or.inr (Or.inr (Or.inl rfl)))))
-      rw [splitM]
-      refine safe_ite ?_ ?_
-      · refine safe_ite (safe_ite (safe_bind (ih _ _) fun _ => hdiv) hidx) ?_
-        refine safe_bind (safe_request env _) fun _ => safe_bind (any_splitLoop (fun a b => ih a b) _ _ _ _) fun es => ?_
-        exact safe_ite hidx (safe_pure _)
-      · refine safe_bind (safe_request env _) fun _ => safe_bind (safe_decElems (ih 0 0) d) fun es => ?_
-        exact safe_ite hidx (safe_pure _)
-
-theorem any_decVariant (env : Env) {rec : Ty → Dec Val} (hr : ∀ t, SafeDec DecoderFail (rec t)) :
-    SafeDec DecoderFail (decVariant env rec) := by
-  unfold decVariant
-  refine safe_bind (safe_readUInt 1) fun mask => ?_
-  refine safe_ite (safe_pure _) (safe_ite safe_err (safe_ite (safe_bind (safe_decVarValue hr _) fun _ => safe_pure _) ?_))
-  refine safe_bind (safe_readUInt 4) fun alen => safe_ite safe_err (safe_ite ?_ ?_)
-  · intro _
-    split
-    · exact Or.inl rfl
-    · exact Or.inr (Or.inr (Or.inr (Or.inl rfl)))
-  · refine safe_bind (safe_decVarElems env (safe_decVarValue hr _) _) fun vals => ?_
-    refine safe_bind (safe_optDec _ _ (safe_readUInt 4)) fun dl => safe_ite safe_err ?_
-    refine safe_bind (safe_optDec _ _ (safe_decDimList env dl)) fun dims => safe_ite safe_err (safe_ite (safe_pure _) ?_)
-    exact safe_bind (any_splitM env vals _ _ _ _) fun _ => safe_pure _
-
-/-- **Which failures the unchanged decoder has.**  For every environment (repaired or not), type and input the
-    decoder model returns a value, an error, a budget failure, or one of the four outcomes of the two Variant
-    defects — never a nil dereference, never an ill-typed access. -/
-theorem decode_covered (env : Env) : ∀ (fuel : Nat) (t : Ty), SafeDec DecoderFail (decode env fuel t) := by
-  intro fuel
-  induction fuel with
-  | zero => intro t; exact safe_depth
-  | succ n ih =>
-    intro t
-    cases t with
-    | bool => exact safe_bind (safe_readUInt 1) fun _ => safe_pure _
-    | int w => exact safe_bind (safe_readUInt w) fun _ => safe_pure _
-    | f32 => exact safe_bind (safe_readUInt 4) fun _ => safe_pure _
-    | f64 => exact safe_bind (safe_readUInt 8) fun _ => safe_pure _
-    | string => exact safe_bind safe_readString fun _ => safe_pure _
-    | time => exact safe_bind safe_readTime fun _ => safe_pure _
-    | bytes => exact safe_decByteSlice
-    | slice e => exact safe_decSlice env (ih e)
-    | ptr e => exact safe_bind (ih e) fun _ => safe_pure _
-    | struct fs => exact safe_bind (safe_decFields ih fs) fun _ => safe_pure _
-    | guid => exact safe_bind safe_decGuid fun _ => safe_pure _
-    | nodeId => exact safe_bind safe_decNodeId fun _ => safe_pure _
-    | expNodeId => exact safe_bind safe_decExpNodeId fun _ => safe_pure _
-    | locText => exact safe_bind safe_decLocText fun _ => safe_pure _
-    | diag => exact safe_bind (safe_decDiag (n + 1)) fun _ => safe_pure _
-    | dataValue => exact safe_decDataValue (ih .variant)
-    | variant => exact any_decVariant env ih
+    | variant => exact safe_decVariant env ih
     | extObj => exact safe_decExtObj env ih
 
 end Opcua.Codec
